@@ -609,6 +609,9 @@ func CheckC14(tier string) {
 			}
 			if len(userErrs) > 0 {
 				cls := msgClass(userErrs[0].Msg)
+				if cls == "" {
+					cls = "redeclared" // "other declaration of X": the continuation line of a redeclaration reported in another file
+				}
 				if cls == "undefined" {
 					// declared in a wire file only (wire copies such declarations into wire_gen.go)?
 					name := strings.TrimSpace(strings.TrimPrefix(userErrs[0].Msg, "undefined:"))
